@@ -716,6 +716,30 @@ def r07_8_linear(chk, sht):
                 bad.append(f"line {e.lineno}: {str(e.target)[:80]} = {e.value}")
         chk.ob("R07.8", SHT, q, "the result is not thresholded or cleaned up after the transform (no masked overwrite by magnitude)", not bad,
                fingerprint="no-threshold", found=bad[:2])
+        # the grid / coefficient array the transform fills has a dtype of its own: taken from the input (dtype=coeffs.dtype, zeros_like) a
+        # real-typed input drops the imaginary parts that are stored into it
+        from .generic import dtype_inheritance_sites
+        roots = {p_ for p_ in ev.param_names[1:]}
+        sites = dtype_inheritance_sites(ev, roots)
+        chk.ob("R07.8", SHT, q, "the array the transform fills has a dtype of its own (not inherited from the argument: computed complex values would "
+               "be truncated to the input's type)", not sites, node=sites[0][0].node if sites else None, fingerprint="own-dtype",
+               expected="np.zeros(shape, dtype=np.complex128) / np.zeros(shape)", found=[w for _, w in sites][:2])
+        if "analysis" in q:
+            # ring itheta of the function is row itheta of the argument as given: a transposed / reshaped / conditionally rearranged copy
+            # reads other samples (and a test on the shape cannot tell (ntheta, nphi) from (nphi, ntheta) on a square grid)
+            par = ev.param_names[1]
+            loads = [e for e in ev.events if e.kind == "store" and e.target.key().startswith("self.fft_work_array") and e.loops]
+            okl = bool(loads)
+            fl = []
+            for e in loads:
+                va = e.value.as_atom()
+                base = va[1] if va and va[0] == "sub" else None
+                ok1 = base is not None and base.key() == par and len(va[2]) in (1, 2) and va[2][0].key() == e.loops[0].index.key()
+                okl = okl and ok1
+                if not ok1:
+                    fl.append(str(e.value)[:120])
+            chk.ob("R07.8", SHT, q, "ring i of the transform is row i of the grid the caller passed (the argument is not transposed or rearranged first)",
+                   okl, fingerprint="ring-load", expected=f"{par}[itheta, :]", found=fl[:2])
 
 
 def r07_8(chk, sht):
@@ -912,6 +936,15 @@ def r07_9(chk, sht, K):
                        expected=f"re: {w[0]} ; im: {w[1]}", found=f"re: {g[0]} ; im: {g[1]}")
         except NotDecidable as ex:
             raise AnalysisError(f"{SHT}:{q}: {ex}")
+    for q_ in ("SHT._eval_at_points_real", "SHT._eval_at_points_cplx"):
+        if q_ not in sht.funcs:
+            continue
+        ev_ = sht.ev(q_)
+        full = ev_.returns[-1].value if ev_.returns else None
+        others = [r for r in ev_.returns[:-1] if r.value is not None and full is not None and r.value.key() != full.key()]
+        chk.ob("R07.10", SHT, q_, "every return of the point evaluator is the full sum over all orders m (a shortcut that returns the zonal part near "
+               "a pole drops terms that are small there, not zero)", not others, node=others[0].node if others else None,
+               fingerprint="pointwise:all-returns", found=[f"line {r.lineno}: return {str(r.value)[:80]} under {[str(c)[:50] for c, p in r.guards][-1:]}" for r in others][:2])
     dv = sht.ev("SHT.evaluate_at_points")
     chk.saw(SHT, "SHT.evaluate_at_points")
     rets = {tuple((c.key(), p) for c, p in r.guards): r.value.key() for r in dv.returns}
